@@ -42,11 +42,11 @@ def geometry(draw, allow_none=True, kinds=("TimeInterval", "BoundingBox")):
 
 
 @st.composite
-def detection_inputs(draw, min_vocab=2, max_vocab=5, sum_le_one=True, same_events=False, allow_geometryless=True, clip_tags=False, multilabel=False):
+def detection_inputs(draw, min_vocab=2, max_vocab=5, sum_le_one=True, same_events=False, allow_geometryless=True, clip_tags=False, multilabel=False, max_clips=4):
     nv = draw(st.integers(min_vocab, max_vocab))
     vocab = draw(st.permutations(TAG_POOL))[:nv]
-    nclips = draw(st.integers(1, 4))
-    side = [draw(st.sampled_from(["both", "both", "both", "ann", "pred"])) for _ in range(nclips)]
+    nclips = draw(st.integers(1, max_clips))
+    side = [draw(st.sampled_from(["both", "both", "both", "both", "both", "ann", "pred"])) for _ in range(nclips)]
     if "both" not in side:
         side[0] = "both"
     clips = []
